@@ -713,6 +713,84 @@ theorem generated_sticky_queuer_prefix_eq_model (sip : Option Nat → Nat) (h : 
     · simp [hp]
 end XlateTieQ
 
+/-! ## Round 4, wave 2: round-robin spread over consecutive dispatches from reachable states -/
+
+/-- the slots chosen for a list of dispatches handled one after the other -/
+def rrPicks (w : W) : List Job → List Nat
+  | [] => []
+  | j :: js => (w.dispatch j).last :: rrPicks (w.dispatch j) js
+
+/-- what one round-robin dispatch keeps: router kind, limiter, drain state, pool size, clock, pool shape -/
+theorem rr_dispatch_keeps (w : W) (j : Job) (hr : w.cfg.router = .rr) (hrl : w.rl = none)
+    (hne : j.expired w.env.now = false) (hd : w.drain = .notDraining) (hs : Shape w.poolSize w.pool) (hn : w.poolSize ≠ 0) :
+    (w.dispatch j).cfg = w.cfg ∧ (w.dispatch j).rl = w.rl ∧ (w.dispatch j).drain = w.drain ∧
+    (w.dispatch j).poolSize = w.poolSize ∧ (w.dispatch j).env.now = w.env.now := by
+  have hpos : 0 < w.poolSize := Nat.pos_of_ne_zero hn
+  have hw := hs.full (rrNext w.last w.poolSize) (rrNext_lt _ _ hpos)
+  obtain ⟨p, hg⟩ := hasW_getW hw
+  have hz : (w.poolSize == 0) = false := by simpa using hn
+  have hch : w.chooseTargetWorker j none = (some (rrNext w.last w.poolSize), { w with last := rrNext w.last w.poolSize }) := by
+    rw [rr_choose_eq w j none hr]
+    simp only [hz, Bool.false_eq_true, if_false, hintAvailable, hintLast, Bool.or_self, hw, if_true]
+  have hri : w.routeInner j none = (.handled, { w with
+      last := rrNext w.last w.poolSize
+      pool := setW w.pool (rrNext w.last w.poolSize) (p.enqueueJob w.env j).1
+      env := (p.enqueueJob w.env j).2 }) := by
+    unfold W.routeInner
+    rw [hch]
+    simp only [hg]
+  have hdn : (w.drain == Drain.notDraining) = true := by rw [hd]; rfl
+  unfold W.dispatch W.routeMessage W.routeLimited
+  simp only [hne, Bool.false_eq_true, if_false, hdn, if_true, hrl, hri]
+  refine ⟨?_, ?_, ?_, ?_, ?_⟩ <;> first | trivial | rfl | exact (envConst_enqueueJob p w.env j).now
+
+/-- (round-robin spread from reachable states) For ANY state with the pool shape of a reachable one (`C15.pool_shape`),
+`n > 0` workers, the fixed (F10) round-robin router, no limiter, not draining: handling any list of dispatches of
+non-expired jobs one after the other picks the slots `rrSeq n k last` — the rotation goes on from where the router state
+stood, one step per job, whatever the workers' load. -/
+theorem rr_picks_walk (js : List Job) : ∀ (w : W), w.cfg.router = .rr → w.rl = none → w.drain = .notDraining →
+    Shape w.poolSize w.pool → w.poolSize ≠ 0 → (∀ j ∈ js, j.expired w.env.now = false) →
+    rrPicks w js = rrSeq w.poolSize js.length w.last := by
+  induction js with
+  | nil => intros; rfl
+  | cons j js ih =>
+    intro w hr hrl hd hs hn hne
+    have hj := hne j (List.mem_cons_self ..)
+    obtain ⟨hl, _⟩ := rr_dispatch_takes_next_slot w j hr hrl hj hd hs hn
+    obtain ⟨kc, kr, kd, kp, kn⟩ := rr_dispatch_keeps w j hr hrl hj hd hs hn
+    have hs' : Shape (w.dispatch j).poolSize (w.dispatch j).pool := shapeInv_dispatch w j hs
+    have ih' := ih (w.dispatch j) (by rw [kc]; exact hr) (by rw [kr]; exact hrl) (by rw [kd]; exact hd) hs'
+      (by rw [kp]; exact hn) (fun x hx => by rw [kn]; exact hne x (List.mem_cons_of_mem _ hx))
+    show (w.dispatch j).last :: rrPicks (w.dispatch j) js = rrSeq w.poolSize (js.length + 1) w.last
+    rw [ih', kp, hl]
+    rfl
+
+/-- (run-level round-robin spread) After ANY run of a round-robin factory without limiter that is not draining and has
+`n > 0` workers, the next `n` dispatches of non-expired jobs go to `n` different slots: every worker `k < n` is picked
+exactly once among them. -/
+theorem rr_spread_after_any_run (c : CaseCfg) (steps : List Step) (js : List Job) (k : Nat)
+    (hr : ((init c).runSteps steps).cfg.router = .rr) (hrl : ((init c).runSteps steps).rl = none)
+    (hd : ((init c).runSteps steps).drain = .notDraining) (hn : ((init c).runSteps steps).poolSize ≠ 0)
+    (hlen : js.length = ((init c).runSteps steps).poolSize)
+    (hne : ∀ j ∈ js, j.expired ((init c).runSteps steps).env.now = false)
+    (hk : k < ((init c).runSteps steps).poolSize) :
+    ∃ i, i < js.length ∧ (rrPicks ((init c).runSteps steps) js)[i]? = some k ∧
+      ∀ i', i' < js.length → (rrPicks ((init c).runSteps steps) js)[i']? = some k → i' = i := by
+  have hs : Shape ((init c).runSteps steps).poolSize ((init c).runSteps steps).pool :=
+    shapeInv_runSteps (init c) steps (shapeInv_init c)
+  rw [rr_picks_walk js _ hr hrl hd hs hn hne, hlen]
+  exact rr_spread _ _ k (Nat.pos_of_ne_zero hn) hk
+
+
+/-- non-vacuity: a reachable state (two jobs already dispatched), then three more dispatches visit all three slots -/
+def rrDemoCase : CaseCfg :=
+  { cfg := { router := .rr, prioQueue := false, hasHandler := true, table := [], hasCC := false }, n := 3, disc := none, rl := none }
+def rrDemoSteps : List Step :=
+  [⟨.dispatch 1 1 0 none false, 1000000, 2000000, 3000000⟩, ⟨.dispatch 2 1 0 none false, 3000000, 4000000, 5000000⟩]
+def rrDemoJobs : List Job := [⟨10, 1, 0, none, false⟩, ⟨11, 1, 0, none, false⟩, ⟨12, 1, 0, none, false⟩]
+example : ((init rrDemoCase).runSteps rrDemoSteps).last = 2 ∧
+    rrPicks ((init rrDemoCase).runSteps rrDemoSteps) rrDemoJobs = [0, 1, 2] := by decide +kernel
+
 end C14
 
 #print axioms C14.custom_in_range
@@ -755,3 +833,6 @@ end C14
 #print axioms C14.generated_custom_choice_eq_model
 #print axioms C14.generated_queuer_prefix_eq_model
 #print axioms C14.generated_sticky_queuer_prefix_eq_model
+#print axioms C14.rr_dispatch_keeps
+#print axioms C14.rr_picks_walk
+#print axioms C14.rr_spread_after_any_run
